@@ -123,6 +123,22 @@ CHECKS["C08"] = dict(
    technique="Coq invariant + step proofs over operation histories + refuted-witness lemmas + latency measurement on real audio runs",
    ref="§5 C08, §11")
 
+CHECKS["C18"] = dict(
+   text="Machine-checked structural proof: a model of all 60 fields of SameReceiver and its components (the 64 leaf paths of the derived "
+        "Debug rendering), of the constructors and of every reset() method, statement by statement, with field values as opaque tokens; "
+        "theorem: for EVERY state with the receiver's shape (every mutable field arbitrary, reachable or not) reset() leaves exactly what "
+        "the constructor builds from the same configuration, hence any deterministic continuation behaves identically. Partial: float "
+        "arithmetic between reset points is not modelled. Tie on every run: the implementation's Debug before reset / after reset / newly "
+        "built, at reset points swept through every phase of a transmission (incl. equalizer training, locked link, message pending), is "
+        "parsed and run through the EXTRACTED model: field list equal, model reset(before) = impl after, model fresh(config_of before) = "
+        "impl new; plus the event-trace differential reset-vs-new with timestamps on a following transmission. One genuine defect was "
+        "repaired (fix: 74c1f92).",
+   note="Trusted: Coq kernel; hand-written structural model (tied by the Debug correspondence; a new or renamed field breaks the field-list "
+        "check); extraction; Rust harness (dbgdump, rxaudio reset_at/skip), Debug parser, synthesiser. No axioms. Hypothesis shape_ok "
+        "(window/coefficient lengths agree, equalizer never Disabled) is established by the constructor (theorem) and validated on every dump.",
+   technique="Coq structural proof (reset = constructor on all fields) + Debug-level model/impl correspondence through the extracted model + event-trace differential",
+   ref="§5 C18, §11")
+
 NOT_APPLICABLE = {}
 
 def main():
